@@ -253,37 +253,50 @@ def run(ctx):
     ctx.exhaustive = True
 
     # spec -> code
-    beh = {}
-    r = ctx.model(SPEC, "MC_Sections", "MC_Sections_emit_%s.cfg" % ctx.tier, name="behaviours (state cover)", workers=8,
-                  coverage=True)
-    idle = [a for a in ACTIONS if r.coverage.get(a, (0, 0))[1] == 0]
-    if idle:
-        raise T.MachineryError("actions never taken in the model run: %s" % idle)
-    for b in T.emitted(r):
-        beh[json.dumps(b, sort_keys=True)] = b
-    ncover = len(beh)
-    r = ctx.model(SPEC, "MC_Sections", "MC_Sections_sim.cfg", name="simulate", simulate="num=%d" % (150 if quick else 2000),
-                  depth=14, workers=1, seed=ctx.seed % 100000)
-    for b in T.emitted(r):
-        beh[json.dumps(b, sort_keys=True)] = b
-    if ncover < 1000 or len(beh) <= ncover:
-        raise T.MachineryError("too few behaviours emitted (%d, %d)" % (ncover, len(beh)))
     traces, cases = [], []
+    seen = set()
     vias = ["output", "direct", "io"]
-    for nb, b in enumerate(beh.values()):
-        case = case_of_behaviour(b)
-        case["via"] = vias[nb % 3]
-        tr = run_case(case)
-        check_known(tr, case["ansi"])
-        ctx.count()
-        if nontrivial(case):
-            ctx.nontriv(json.dumps(case["ops"], sort_keys=True))
-        if not same(b, tr):
-            traces.append(tr)
-            cases.append(case)
-    ctx.extra["tlc_behaviours_replayed"] = len(beh)
+    mid = []
+
+    def replay_emitted(r):
+        for line in r.lines:
+            b = T.parse_emit(line)
+            if b is None:
+                continue
+            key = hash(line)
+            if key in seen:
+                continue
+            seen.add(key)
+            case = case_of_behaviour(b)
+            case["via"] = vias[len(seen) % 3]
+            tr = run_case(case)
+            check_known(tr, case["ansi"])
+            ctx.count()
+            if nontrivial(case):
+                ctx.nontriv(key)
+            if not same(b, tr):
+                traces.append(tr)
+                cases.append(case)
+            if len(seen) % 5000 == 1:
+                mid[:] = [case]
+        r.lines = []
+
+    emit_cfgs = ["MC_Sections_emit_quick.cfg"] if quick else ["MC_Sections_emit_thorough.cfg", "MC_Sections_emit_thorough2.cfg"]
+    for cfg in emit_cfgs:
+        r = ctx.model(SPEC, "MC_Sections", cfg, name="behaviours (state cover) " + cfg, workers=8, coverage=True)
+        idle = [a for a in ACTIONS if r.coverage.get(a, (0, 0))[1] == 0]
+        if idle:
+            raise T.MachineryError("actions never taken in the model run: %s" % idle)
+        replay_emitted(r)
+    ncover = len(seen)
+    r = ctx.model(SPEC, "MC_Sections", "MC_Sections_sim.cfg", name="simulate", simulate="num=%d" % (150 if quick else 1500),
+                  depth=14, workers=1, seed=ctx.seed % 100000)
+    replay_emitted(r)
+    if ncover < 1000 or len(seen) <= ncover:
+        raise T.MachineryError("too few behaviours emitted (%d, %d)" % (ncover, len(seen)))
+    ctx.extra["tlc_behaviours_replayed"] = len(seen)
     ctx.extra["tlc_behaviours_not_reproduced"] = len(traces)
-    ctx.sample({"tlc_behaviour": case_of_behaviour(list(beh.values())[len(beh) // 2])})
+    ctx.sample({"tlc_behaviour": mid[0]})
 
     # code -> spec
     for t in range(600 if quick else 6000):
